@@ -25,6 +25,7 @@
 import SF.Json.Parse
 import SF.Json.Cst
 import SF.Proofs.JsonRefineTop
+import SF.Proofs.JsonConverseTop
 namespace SF.Props.C04
 open SF SF.Json SF.Json.Parse SF.Json.Float
 
@@ -216,3 +217,67 @@ theorem number_value (p : P) (tok : Bytes) (ev : Ev) (h : numEv tok = some ev) :
   SF.Json.RefineTop.number_value p tok ev h
 
 end SF.PropsJsonP.C04
+
+
+/-! ## the CONVERSE: what `Parse` accepts (C04, last clause; proofs SF/Proofs/JsonConv*.lean, JsonConverseTop.lean)
+
+The bracket / comma / colon / key STRUCTURE is strict: the grammar `J` of SF/Proofs/JsonGrammar.lean,
+unchanged.  The LEXICAL level of this parser is lenient, and the theorems use the weakest token-level
+predicates that make them true (`Doc.goodL`: `J.okL` / `J.semL`): white space is any byte Go's
+`unicode.IsSpace` accepts (0x09–0x0D, 0x20, 0x85, 0xA0); documents of a stream need no separator
+unless the first is a bare number (`nulltrue` is two documents; `[nulltrue]`, `[1 2]`, `[1,]`,
+`{"a" 1}` … are errors); number tokens are what strconv accepts (`+5`, `007`, `.5`, `0x1.8p1`);
+string tokens additionally allow `\'` and pass ill-formed UTF-8 through.  Each leniency is a
+kernel-evaluated example in SF/Proofs/JsonConverseTop.lean; the oracle's reference decoder answers
+`undetermined` on exactly these (DESIGN §0.6). -/
+
+namespace SF.PropsJsonConv.C04
+open SF SF.Json SF.Json.Parse SF.Json.Float SF.Json.Grammar SF.Json.ParseP
+
+/-- THE CONVERSE: whatever `Parse` accepts is white space, a stream of documents of the grammar
+(each followed by white space) and possibly one last bare number token, and the events delivered
+are exactly theirs -/
+theorem accepted_is_stream (b : Bytes) (h : (parse {} b).2 = none) :
+    ∃ ws0 ds fin, allSp ws0 = true ∧ (∀ d ∈ ds, Doc.goodL d = true) ∧ finOk fin = true ∧
+      b = ws0 ++ (streamWire ds ++ fin) ∧
+      events (parse {} b).1 = streamEventsL ds ++ finEvents fin :=
+  SF.Props.JsonConverse.accepted_is_stream_fresh b h
+
+/-- EXACTNESS: `Parse` accepts `b` if and only if `b` is such a stream -/
+theorem accepted_iff (b : Bytes) :
+    (parse {} b).2 = none ↔
+    ∃ ws0 ds fin, allSp ws0 = true ∧ (∀ d ∈ ds, Doc.goodL d = true) ∧ finOk fin = true ∧
+      b = ws0 ++ (streamWire ds ++ fin) :=
+  SF.Props.JsonConverse.accepted_iff b
+
+/-- C04, last clause: an input whose structure is not that of a stream of JSON texts is rejected
+with an error -/
+theorem not_stream_is_rejected (b : Bytes)
+    (h : ¬ ∃ ws0 ds fin, allSp ws0 = true ∧ (∀ d ∈ ds, Doc.goodL d = true) ∧ finOk fin = true ∧
+      b = ws0 ++ (streamWire ds ++ fin)) :
+    ∃ e, (parse {} b).2 = some e :=
+  SF.Props.JsonConverse.not_stream_is_rejected b h
+
+/-- … for EVERY CHUNKING (`Write` per chunk, then end of input) -/
+theorem accepted_chunks_is_stream (cs : List Bytes) (h : (writeChunks {} cs).2 = none) :
+    ∃ ws0 ds fin, allSp ws0 = true ∧ (∀ d ∈ ds, Doc.goodL d = true) ∧ finOk fin = true ∧
+      cs.flatten = ws0 ++ (streamWire ds ++ fin) ∧
+      events (writeChunks {} cs).1 = streamEventsL ds ++ finEvents fin :=
+  SF.Props.JsonConverse.accepted_chunks_is_stream cs h
+
+/-- the strict notions of the refinement theorem imply the lenient ones, with the same events -/
+theorem good_goodL (d : Doc) (h : d.good) : Doc.goodL d = true ∧ d.1.eventsL = d.1.events :=
+  SF.Props.JsonConverse.good_goodL d h
+
+/-- the structure inside containers is strict: `[nulltrue]`, `[1 2]`, `[1,]`, `[,1]`, `{"a":1,}`,
+`{"a" 1}` are errors; truncated input is an error -/
+example :
+    (parse {} [0x5b, 0x6e, 0x75, 0x6c, 0x6c, 0x74, 0x72, 0x75, 0x65, 0x5d]).2 = some .unknownChar ∧
+    (parse {} [0x5b, 0x31, 0x20, 0x32, 0x5d]).2 = some .unknownChar ∧
+    (parse {} [0x5b, 0x31, 0x2c, 0x5d]).2 = some .unknownChar ∧
+    (parse {} [0x5b, 0x2c, 0x31, 0x5d]).2 = some .unknownChar ∧
+    (parse {} [0x7b, 0x22, 0x61, 0x22, 0x3a, 0x31, 0x2c, 0x7d]).2 = some .unexpectedDictClose ∧
+    (parse {} [0x7b, 0x22, 0x61, 0x22, 0x20, 0x31, 0x7d]).2 = some .expectColon ∧
+    (parse {} [0x5b, 0x31]).2 = some .incomplete := by decide +kernel
+
+end SF.PropsJsonConv.C04
